@@ -41,7 +41,7 @@ def plan(tier, seed):
     nd = 16 if tier == "quick" else 32
     shards += [{"part": "d", "i": i, "n": nd} for i in range(nd)]
     for hid in E_ORDER:
-        ne = 4 if tier == "quick" else 8
+        ne = 4 if tier == "quick" else 16
         shards += [{"part": "e", "h": hid, "bound": _e_bound(hid, tier), "i": i, "n": ne} for i in range(ne)]
     return shards
 
@@ -604,13 +604,14 @@ E_HARNESS = {
     "two-each": (["char", "len-b"], ["len-a", "char2"], False),
 }
 E_ORDER = ("first-lookups", "char-vs-len", "zero-vs-wide", "same-string", "size-vs-chop", "full-cache", "two-each")
-E_MAX_EXECS = 6000
+E_MAX_EXECS = 8000          # per shard; a complete bound-2 harness has < 25,000 schedules over 16 shards
 E_STOP_AFTER_VIOLATIONS = 8
 
 
 def _e_bound(hid, tier):
-    if tier == "thorough":
-        return 1 if hid in ("full-cache", "two-each") else 2
+    # bound 2 is ~n^2/2 schedules of ~45 ms for n choice points: affordable for the three short harnesses
+    if tier == "thorough" and hid in ("zero-vs-wide", "char-vs-len", "same-string"):
+        return 2
     return 1
 
 
@@ -798,7 +799,7 @@ def describe(tier, seed, res):
                 "(e) E3 on cold module state: harnesses %s, two real threads calling cell_len / get_character_cell_size / "
                 "set_cell_size / chop_cells on wide and zero-width text, every execution in a fork of a zygote that never "
                 "called rich.cells, all interleavings of executed lines of rich.cells + rich._lru_cache with <=1 preemption "
-                "(<=2 thorough), results and re-queries against the table scan. A case is non-trivial when the operation actually crops, pads, splits, or re-measures "
+                "(<=2 thorough for the three short harnesses), results and re-queries against the table scan. A case is non-trivial when the operation actually crops, pads, splits, or re-measures "
                 "a string measured earlier; distinct = distinct outcome signatures." % (_maxlen(tier), ", ".join(E_ORDER)),
         "assumptions": [
             "width oracle = Rich's CELL_WIDTHS data scanned linearly (table content is trusted, lookup/arithmetic is judged)",
